@@ -1,11 +1,7 @@
 (* Corr/C15.v — monitor for C15: a check never panics and its verdict is well-formed. *)
 From AS Require Import Base.Str Oidc.Types Oidc.Prog Oidc.Handler Corr.Common Corr.Hist.
 
-Definition wellformed (o : outcome) : bool :=
-  match o with
-  | OPanic => false
-  | OBadAnswer => false          (* the harness maps "OK status with a denied body" and the like here *)
-  | _ => true
-  end.
-Definition mon15 (c : cfg) (db : tokdb) (g : unit) (s : step) : unit * bool := (tt, wellformed (s_resp s)).
+(* the harness maps a recovered panic to OPanic and an ill-formed verdict (OK status with a denied
+   body, no status, error return) to OBadAnswer *)
+Definition mon15 (c : cfg) (db : tokdb) (g : unit) (s : step) : unit * bool := (tt, no_panic (s_resp s)).
 Definition run (hs : list hist) : list fail := take 20 (run_hists unit tt mon15 0 hs).
